@@ -125,3 +125,17 @@ package keeper
 //@ ensures [direct-connection] len(connectionHops) != 1 ==> result != nil
 //@ ensures [def] result == nil <==> len(connectionHops) == 1 && conn.1 && cl.1 && cl.0 == conn.0.ClientId
 //@ ensures [pure] S == old(S) && E == old(E) && X == old(X)
+
+// ---------------------------------------------------------------- C01 / C12 / C17: consumer genesis
+
+//@ func Keeper.InitGenesis
+//@ requires state != nil
+//@ ensures [disabled-imports-nothing-else] !state.Params.Enabled ==> result == nil && !$ApplyCCValidatorChanges.called && !$SetProviderClientID.called
+//@ ensures [initial-set-applied] state.Params.Enabled && !state.PreCCV ==> $ApplyCCValidatorChanges.called && $ApplyCCValidatorChanges.changes == state.Provider.InitialValSet && result == state.Provider.InitialValSet
+//@ ensures [pre-ccv-keeps-standalone-set] state.Params.Enabled && state.PreCCV ==> !$ApplyCCValidatorChanges.called && len(result) == 0
+//@ ensures [new-chain-starts-at-vsc-zero] state.Params.Enabled && state.NewChain ==> k.GetHeightValsetUpdateID(ctx, uint64(height)) == 0
+//@ ensures [new-chain-on-connection-uses-its-client] state.Params.Enabled && state.NewChain && state.ConnectionId != "" ==> k.GetProviderClientID(ctx).1 && k.GetProviderClientID(ctx).0 == old(k.connectionKeeper.GetConnection(ctx, state.ConnectionId)).0.ClientId
+//@ ensures [restart-restores-client] state.Params.Enabled && !state.NewChain ==> k.GetProviderClientID(ctx).1 && k.GetProviderClientID(ctx).0 == state.ProviderClientId
+//@ ensures [restart-restores-channel] (stretch) state.Params.Enabled && !state.NewChain && state.ProviderChannelId != "" ==> k.GetProviderChannel(ctx).1 && k.GetProviderChannel(ctx).0 == state.ProviderChannelId
+//@ loop 3 step [height-map-restored] k.GetHeightValsetUpdateID(ctx, h2v.Height) == h2v.ValsetUpdateId
+//@ loop 2 step [pending-packet-restored] $AppendPendingPacket.called && $AppendPendingPacket.packetType == packet.Type
